@@ -410,12 +410,25 @@ impl C06 {
                 out.push(Dlv { kind: format!("args-{fmt}"), argv, stdin: None, dir_mode: "asc".into(), dir_seed: 1, faults, extra: vec![], missing, rules_idx: all_r.clone(), data_idx: all_d.clone() });
             } else if choice < 7 {
                 let flag = *r.pick(&["", "-a", "-m"]);
-                let mut argv = sv(&["cfn-guard", "validate", "-r", "@/rules", "-d", "@/data"]);
+                // the same directories, or directories of symbolic links to their files (a
+                // mounted config map, a stow / nix tree)
+                let links = r.chance(1, 4);
+                let mut extra = vec![];
+                let link_to = |rel: &String| FileSpec { rel: format!("l{} -> {}{}", rel, "../".repeat(rel.matches('/').count()), rel), bytes: vec![], mtime_ns: 0 };
+                let mut argv = if links {
+                    extra.extend(scn.rules.iter().map(link_to));
+                    extra.extend(scn.data.iter().map(link_to));
+                    sv(&["cfn-guard", "validate", "-r", "@/lrules", "-d", "@/ldata"])
+                } else {
+                    sv(&["cfn-guard", "validate", "-r", "@/rules", "-d", "@/data"])
+                };
                 if !flag.is_empty() {
                     argv.push(flag.into());
                 }
                 argv.extend(tail);
-                out.push(Dlv { kind: format!("dirs{flag}-{fmt}"), argv, stdin: None, dir_mode: (*r.pick(&["shuffle", "desc", "asc"])).to_string(), dir_seed: r.next(), faults, extra: vec![], missing: vec![], rules_idx: all_r.clone(), data_idx: all_d.clone() });
+                // hard faults are attributed by path: only transparent ones through links
+                let faults = if links && matches!(&faults, FaultSpec::Random { rates, .. } if rates.read_eio > 0 || rates.open_fail > 0) { FaultSpec::Off } else { faults };
+                out.push(Dlv { kind: format!("{}{flag}-{fmt}", if links { "linkdirs" } else { "dirs" }), argv, stdin: None, dir_mode: (*r.pick(&["shuffle", "desc", "asc"])).to_string(), dir_seed: r.next(), faults, extra, missing: vec![], rules_idx: all_r.clone(), data_idx: all_d.clone() });
             } else if choice < 9 {
                 // payload: only items whose bytes are text can be embedded
                 let pr: Vec<usize> = r.perm(nr).into_iter().filter(|i| obs.rules[*i] != "U").collect();
